@@ -7,6 +7,11 @@
      P <cfg>                       -> hex of serde_json::to_string
      H <cfg>                       -> the Hasher::write calls, hex chunks separated by '.'
      T                             -> {curated cfg} | iter_keys of new_curated, comma separated
+     U                             -> the same, from the EXECUTION of the generated statements (C11Curated.new_curated_model)
+     K adds # docs # steps         one long-lived group, its chunk cache warm: a history of config ops and lint calls
+          adds: a K d0lints|d1lints.. ; p K c0/c1/..|c0/c1/..   docs: start:keyid:ntoks,...|...   steps: l i | g <cop without register>
+          ->  per lint step  lints|calls  or  P ,  joined by " ; "   (calls = pattern evaluations = sum over MISSED chunks of
+              its token count x the number of enabled pattern rules)
      L <ngroups> ; gop ; gop ... # idx:start,idx:n,...          build groups, then groups[0].lint(doc)
           gops: a i K lints | p i K lints/lints/... | m i j | A i v | g i <cop without register>
           lints: s-e-id,s-e-id  ("-" = none)
@@ -92,6 +97,35 @@ let () =
       | 'P' -> print_endline (hex_of_key (print_cfg (cfg_of_string body)))
       | 'H' -> print_endline (String.concat "." (List.map hex_of_key (hash_calls (cfg_of_string body))))
       | 'T' -> print_endline (string_of_cfg curated_cfg ^ " | " ^ String.concat "," (List.map hex_of_key curated_names))
+      | 'U' -> print_endline (string_of_cfg program_cfg ^ " | " ^ String.concat "," (List.map hex_of_key program_names))
+      | 'K' ->
+          (match String.split_on_char '#' body with
+           | [adds; docs; steps] ->
+               let semis x = List.filter_map (fun o -> match words o with [] -> None | w -> Some w) (String.split_on_char ';' x) in
+               let bars x = List.map String.trim (String.split_on_char '|' x) in
+               let adds = List.map (fun w -> match w with
+                 | ["a"; k; per] -> AStruct (key_of_hex k, List.map lints_of (bars per))
+                 | ["p"; k; per] -> APattern (key_of_hex k, List.map (fun d -> List.map lints_of (String.split_on_char '/' d)) (bars per))
+                 | _ -> failwith "hadd") (semis adds) in
+               let ntoks = Hashtbl.create 16 in
+               let docs = List.mapi (fun di dspec ->
+                 let chs = List.mapi (fun ci c -> match String.split_on_char ':' c with
+                   | [st; kid; nt] ->
+                       Hashtbl.replace ntoks (int_of_string kid) (int_of_string nt);
+                       ((nat_of_int ci, (if st = "n" then None else Some (nat st))), nat kid)
+                   | _ -> failwith "hchunk") (commas dspec) in
+                 (nat_of_int di, chs)) (bars (String.trim docs)) in
+               let steps = List.map (fun w -> match w with
+                 | ["l"; i] -> SLint (nat i)
+                 | "g" :: c :: rest -> SCfg (cop_of (c :: "0" :: rest))
+                 | _ -> failwith "hstep") (semis steps) in
+               let outs = run_history adds docs steps in
+               print_endline (String.concat " ; " (List.map (fun ((r, missed), en) -> match r with
+                 | Panic _ -> "P"
+                 | Ok ls ->
+                     let toks = List.fold_left (fun a k -> a + (try Hashtbl.find ntoks (int_of_nat k) with Not_found -> 0)) 0 missed in
+                     Printf.sprintf "%s|%d" (string_of_lints ls) (toks * int_of_nat en)) outs))
+           | _ -> print_endline "?")
       | 'L' ->
           (match String.split_on_char '#' body with
            | [front; chs] ->
